@@ -5,7 +5,7 @@ import itertools, random, json
 from ..harness import coq, impl, scn, gen, obs as O, pyeval
 
 pid = 'C07'
-gen_modules = ['tr_state', 'tr_validators', 'tr_has_patcher', 'tr_contracts', 'tr_decorators', 'tr_pin_contracts', 'tr_pin_invariant', 'tr_rest_validators', 'tr_rest_patcher', 'tr_rest_state', 'tr_rest_contractsconst', 'tr_dispatch', 'tr_rest_dispatch', 'tr_rest_trace', 'tr_pin_inherit']
+gen_modules = ['tr_state', 'tr_validators', 'tr_has_patcher', 'tr_contracts', 'tr_decorators', 'tr_pin_contracts', 'tr_invariant', 'tr_pin_invariant', 'tr_rest_validators', 'tr_rest_patcher', 'tr_rest_state', 'tr_rest_contractsconst', 'tr_dispatch', 'tr_rest_dispatch', 'tr_rest_trace', 'tr_pin_inherit']
 model_targets = ['Sem/ScnSwitch.v', 'Sem/Scenario.v']
 hand_modelled = []
 OPS = ['enable', 'disable', 'reset', 'perm']
